@@ -101,6 +101,12 @@ def _worker(task):
             if b is not None:
                 bound.append(((a, kw), b))
         variants = [(ign, ign, kmname, mk, None) for ign in ignore_specs(tier, form == 'method') for kmname, mk in kms]
+        if form == 'function':
+            # the specification given as a (mutable) set or list object: it is the caller's, and it is read at every key
+            for ign in ignore_specs(tier, False):
+                if ('*' in ign or '**' in ign) and len(ign) <= 2:
+                    variants.append((ign, set(ign), kms[0][0] + ' ignore given as a set', kms[0][1], None))
+                    variants.append((ign, list(ign), kms[0][0] + ' ignore given as a list', kms[0][1], None))
         if form == 'function' and plain.npos >= 1:
             # every one of the twelve decorator classes, with `ignore` given as a bare name / index instead of a tuple
             import klepto.safe
@@ -143,7 +149,7 @@ def _worker(task):
                     counter = g.CALLS
                 elif form == 'function':
                     f = plain.compile()
-                    W = klepto.inf_cache(keymap=mk(), ignore=ign)(f)
+                    W = klepto.inf_cache(keymap=mk(), ignore=ign_arg)(f)
                     prefix = ()
                     counter = f.CALLS
                 else:
